@@ -78,3 +78,14 @@ let () =
       let complete = List.for_all (fun ((_, sz), d) -> int_of_n sz = List.length d) w in
       String.concat "," items ^ " TILES=" ^ (if complete && !off = List.length bs then "1" else "0")
     | _ -> "ERR args")
+
+let () =
+  (* nametable <block hex> <names hex ,> -> 1 when every name is found at the offset the model computes for its position *)
+  register "nametable" (fun a -> match a with
+    | [blk; names] ->
+      let block = bytes_of_hex blk in
+      let ns = List.map bytes_of_hex (String.split_on_char ',' names) in
+      let offs = name_offsets N0 ns in
+      let bad = List.filter (fun (n, o) -> name_at block o <> n) (List.combine ns offs) in
+      if bad = [] then "1" else "0:" ^ hex_of_bytes (fst (List.hd bad))
+    | _ -> "ERR args")
